@@ -18,13 +18,15 @@ from .common import Violation, probe
 _WILD_NAMES = {k[1] for k in WILDCARDS} | {"bundle"}
 
 
-def observe(w: World, obs: Obs, group=None) -> dict:
-    """key -> value.  group(name) maps a declared name to its comparison group."""
+def observe(w: World, obs: Obs, group=None, group_ent=None) -> dict:
+    """key -> value.  group(name) maps a declared name to its comparison group; group_ent(name,
+    entity) does the same with the anchor entity at hand (its description carries the source line)."""
     out: dict = {}
     multi: dict = {}
     for name, lst in obs.anchors.items():
-        g = group(name) if group else name
+        g0 = group(name) if group else name
         for num, label in lst:
+            g = group_ent(name, w.ents[num]) if group_ent else g0
             sigs = w.read(num)
             if label is None or label in _WILD_NAMES:
                 val = tuple(sorted((k[1], v) for k, v in sigs.items()))
@@ -100,12 +102,13 @@ def compare_obs(a: dict, b: dict, res: dict, where, what: str, keys=None, first_
         probe(res, "no_common_observation_point")
 
 
-def _trace_point(w: World, obs: Obs, group):
+def _trace_point(w: World, obs: Obs, group, group_ent=None):
     """One tick's observation with anchor identity kept: (group, anchor entity) -> value."""
     out = {}
     for name, lst in obs.anchors.items():
-        g = group(name) if group else name
+        g0 = group(name) if group else name
         for num, label in lst:
+            g = group_ent(name, w.ents[num]) if group_ent else g0
             sigs = w.read(num)
             if label is None or label in _WILD_NAMES:
                 val = tuple(sorted((k[1], v) for k, v in sigs.items()))
@@ -121,7 +124,8 @@ def _trace_point(w: World, obs: Obs, group):
 
 
 def compare_free_running(tw: "Twin", res: dict, where, what: str, group=None, shift: int = 6,
-                         window: int = 16, first_may_expose_fewer: bool = False) -> int:
+                         window: int = 16, first_may_expose_fewer: bool = False,
+                         group_ents=(None, None)) -> int:
     """Programs with free-running cells never come to rest, and the language promises no latency:
     two builds of one program may differ by a few ticks of delay on any path.  Run both builds,
     record every observation point per tick, and require for every point a constant shift d
@@ -134,7 +138,7 @@ def compare_free_running(tw: "Twin", res: dict, where, what: str, group=None, sh
     tr = [{}, {}]
     for _t in range(T):
         for i in (0, 1):
-            for k, v in _trace_point(tw.ws[i], tw.obs[i], group).items():
+            for k, v in _trace_point(tw.ws[i], tw.obs[i], group, group_ents[i]).items():
                 tr[i].setdefault(k, []).append(v)
             tw.ws[i].step()
     lo, hi = warm + shift, T - shift
@@ -337,7 +341,7 @@ class _Inliner:
             f = self.funcs[e[1]]
             args = [self.expr(a, pre, local_ints) for a in e[2]]
             self.n += 1
-            suf = f"__c{self.n}"
+            suf = f"__{e[1]}c{self.n}"     # declaring function + call-site number
             body = copy.deepcopy(f[3])
             ret = copy.deepcopy(f[4])
             ints = {}
